@@ -93,6 +93,10 @@ func runStore(o *Out, r *rand.Rand, thorough bool, args []string) {
 	if thorough {
 		nHist, nPuts = 300, 160
 	}
+	corpusReopenEmpty(o)
+	if len(args) > 0 && args[0] == "corpus" {
+		return
+	}
 	for h := 0; h < nHist; h++ {
 		storeHistory(o, r, h, nPuts, thorough)
 	}
@@ -317,6 +321,66 @@ func storeHistory(o *Out, r *rand.Rand, h, nPuts int, thorough bool) {
 		}
 	}
 	o.Case(fmt.Sprintf("retained n=%d", len(rets)), fmt.Sprintf("changed=%d", changed))
+}
+
+// corpusReopenEmpty is a minimised past failure (found by the thorough tier): an over-capacity store whose prune on open
+// removes every item. NewStorage then looked for the farthest key and found only the reserved counter key.
+func corpusReopenEmpty(o *Out) {
+	var node enode.ID
+	db, err := pebble.Open("", &pebble.Options{FS: vfs.NewMem()})
+	if err != nil {
+		panic(err)
+	}
+	cfg := storage.PortalStorageConfig{StorageCapacityMB: 1, NodeId: node, NetworkName: "verif"}
+	st, err := spebble.NewStorage(cfg, db)
+	if err != nil {
+		panic(err)
+	}
+	o.Case(fmt.Sprintf("open cap=%d node=%s", 1000_000, hex.EncodeToString(node[:])), "ok "+observe(db).snap(st))
+	put := func(first byte, n int) {
+		id := make([]byte, 32)
+		id[0] = first
+		before := observe(db)
+		err := st.Put(nil, id, genBytes(n, int(first)))
+		after := observe(db)
+		res := "ok"
+		if errors.Is(err, storage.ErrInsufficientRadius) {
+			res = "insufficient_radius"
+		} else if err != nil {
+			res = "err"
+		}
+		dropped, minDropped := 0, "-"
+		if res == "ok" {
+			before.keys[string(id)] = true
+			var dk []string
+			for k := range before.keys {
+				if !after.keys[k] {
+					dk = append(dk, k)
+				}
+			}
+			sort.Strings(dk)
+			dropped = len(dk)
+			if dropped > 0 {
+				minDropped = hex.EncodeToString([]byte(dk[0]))
+			}
+		}
+		o.Case(fmt.Sprintf("put id=%s len=%d seed=%d small=0", hex.EncodeToString(id), n, int(first)),
+			fmt.Sprintf("%s %s dropped=%d mindropped=%s", res, after.snap(st), dropped, minDropped))
+	}
+	put(0xf0, 60000)   // far
+	put(0xe0, 60000)   // far
+	put(0x20, 0)       // tiny, in between
+	put(0x10, 1000000) // near and larger than the capacity: the prune frees 5 % and stops, the store stays over capacity
+	for i := 0; i < 2; i++ {
+		st2, err := spebble.NewStorage(cfg, db)
+		if err != nil {
+			o.Case("reopen", "err")
+			return
+		}
+		st = st2
+		o.Case("reopen", "ok "+observe(db).snap(st))
+	}
+	put(0x01, 10)
 }
 
 // aliasHistory looks at the lifetime of the slices handed out by Get: values are read back from flushed
